@@ -60,6 +60,28 @@ Proof.
 Qed.
 Print Assumptions C10_cancel.
 
+(* What cancel guarantees exactly.  cancel() only flips a flag in the queue entry, so it is effective precisely
+   when it arrives before the WORKER has taken the entry off the queue - whatever the clock says: an instance that
+   is not yet in the taken order (spawned or run) when it is cancelled never runs.  (C10_cancel is the special
+   case "the clock is still before the rounded deadline", where the worker cannot have taken it.)
+   Conversely, once the worker has handed the action to its own greenlet, a cancel - even one arriving at the very
+   same clock value, exactly at the rounded deadline - does not stop it: by C10_cancel_frame `spawned` is
+   untouched, and `Run` runs whatever is first in `spawned` (C10_example_cancel shows such a history).  Users of
+   the timer (C01) must therefore treat a fire after their own cancel as possible and make it inert. *)
+Theorem C10_cancel_before_take : forall r ls1 ls2 st1 st2 s, 0 <= r ->
+  exec r init ls1 = Some st1 -> ~ In s (map fst (ran st1) ++ spawned st1) ->
+  exec r st1 (Cancel s :: ls2) = Some st2 ->
+  ~ In s (map fst (ran st2)) /\ ~ In s (spawned st2).
+Proof.
+  intros r ls1 ls2 st1 st2 s _ H1 Hn H2. cbn [exec] in H2.
+  destruct (step r st1 (Cancel s)) as [st1'|] eqn:S; [|discriminate].
+  pose proof (inv_reachable _ _ (ex_intro _ ls1 H1)) as HI.
+  pose proof (cancel_makes_dead _ _ _ _ Hn S) as D.
+  destruct (dead_exec _ _ _ _ _ (inv_step _ _ _ _ HI S) D H2) as (N & _ & _). unfold taken in N.
+  split; intros Hin; apply N, in_or_app; auto.
+Qed.
+Print Assumptions C10_cancel_before_take.
+
 (* Cancelling a changes nothing but the flag of a's own queue entry: every other entry, the event, the
    worker's position and resumability, the spawned and run logs are untouched. *)
 Theorem C10_cancel_frame : forall r st a st', step r st (Cancel a) = Some st' ->
@@ -197,3 +219,13 @@ Example C10_example_cancel :
   exists st, exec 4 init [Sched 5; Sched 9; Worker false; Worker false; Cancel 1; Tick 8; Worker false; Tick 12; Worker false; Cancel 2; Run]
              = Some st /\ ran st = [(2, 12)] /\ q st = [] /\ cancels st = [(1, 0); (2, 12)].
 Proof. eexists. split; [vm_compute; reflexivity|]. vm_compute. repeat split. Qed.
+
+(* cancel arriving exactly AT the rounded deadline (clock = 8): before the worker popped the entry it never
+   runs; after the worker handed it to its greenlet it still runs, at the same clock value *)
+Example C10_example_cancel_at_deadline :
+  exists st st',
+    exec 4 init [Sched 8; Worker false; Worker false; Tick 8; Cancel 1; Worker false] = Some st /\
+    exec 4 init [Sched 8; Worker false; Worker false; Tick 8; Worker false; Cancel 1; Run] = Some st' /\
+    ran st = [] /\ spawned st = [] /\ q st = [] /\ cancels st = [(1, 8)] /\ quiescent 4 st /\
+    ran st' = [(1, 8)] /\ cancels st' = [(1, 8)].
+Proof. eexists. eexists. split; [vm_compute; reflexivity|]. split; [vm_compute; reflexivity|]. vm_compute. repeat split. Qed.
